@@ -66,11 +66,11 @@ class Gen:
                     vals.append(b.add(ty='func', params=params, body=body, name='', arrow=r.choice([0,0,1])))
                 else: vals.append(self.expr(sc,d-1))
             return b.add(ty='objlit', keys=[cs(x) for x in ks], vals=vals)
-        if c=='member': return b.add(ty='member', a=self.expr(sc,d-1), key=cs(r.choice(KEYS+(['f1','f2','m1'] if sc.get('classes') else []))))
+        if c=='member': return b.add(ty='member', a=self.expr(sc,d-1), key=cs(r.choice(KEYS+(['f1','f2','m1','g1','g1','g2'] if sc.get('classes') else []))))
         if c=='index': return b.add(ty='index', a=self.expr(sc,d-1), b=self.expr(sc,d-1))
         if c=='setmember':
             base=b.add(ty='var', name=r.choice(vars_)) if vars_ else self.expr(sc,d-1)
-            return b.add(ty='setmember', a=base, key=cs(r.choice(KEYS[:5])), c=self.expr(sc,d-1))
+            return b.add(ty='setmember', a=base, key=cs(r.choice(KEYS[:5]+(['g1','g1','g2'] if sc.get('classes') else []))), c=self.expr(sc,d-1))
         if c=='setindex':
             base=b.add(ty='var', name=r.choice(vars_)) if vars_ else self.expr(sc,d-1)
             return b.add(ty='setindex', a=base, b=b.add(ty='num', v=r.choice([0,1,2])) if r.random()<0.7 else self.expr(sc,d-1), c=self.expr(sc,d-1))
@@ -222,7 +222,22 @@ class Gen:
             ps=[self.fresh('p') for _ in range(r.choice([0,1]))]
             fb=self.funcbody(self.child(sc), ps, max(0,d-1))
             smkeys.append(cs(kname)); smfuncs.append(b.add(ty='func', params=ps, body=fb, name=kname, arrow=0, defs=[0]*len(ps), gen=0))
-        node=b.add(ty='classdecl', name=name, parent=parent, params=params, defs=[0]*len(params), body=body, hasctor=hasctor,
+        # accessors: a class may declare only one half; the other half is NOT inherited from a parent that has it
+        akeys=[]; agets=[]; asets=[]
+        for kname in r.sample(['g1','g2'], r.choice([0,1,1,2])):
+            both=r.choice(['g','s','gs','gs'])
+            gfn=sfn=0
+            if 'g' in both:
+                self._method_ctx=derived
+                gfn=b.add(ty='func', params=[], body=self.funcbody(self.child(sc), [], max(0,d-1)), name=kname, arrow=0, defs=[], gen=0)
+            if 's' in both:
+                sp=self.fresh('p')
+                inner=dict(classes=list(sc.get('classes',[])), names=[(n,k) for n,k in sc['names'] if n!=sp]+[(sp,'let')], own=[sp], nested=True, funcs=list(sc['funcs']), inloop=False, labels=[], infunc=True, ingen=False, gvars=[], gfuncs=[], noreturn=True)
+                xs=[b.add(ty='exprstmt', a=b.add(ty='setmember', a=b.add(ty='this'), key=cs(r.choice(['k1','f1'])), c=(b.add(ty='var', name=sp) if r.random()<0.7 else self.expr(inner,1))))]
+                xs+=self.stmts(inner, 0, r.randint(0,1))
+                sfn=b.add(ty='func', params=[sp], body=b.add(ty='block', xs=xs), name=kname, arrow=0, defs=[0], gen=0)
+            akeys.append(cs(kname)); agets.append(gfn); asets.append(sfn)
+        node=b.add(ty='classdecl', akeys=akeys, agets=agets, asets=asets, name=name, parent=parent, params=params, defs=[0]*len(params), body=body, hasctor=hasctor,
                    fkeys=fkeys, finit=finit, skeys=skeys, sinit=sinit, mkeys=mkeys, mfuncs=mfuncs, smkeys=smkeys, smfuncs=smfuncs)
         self.bind(sc, name, 'let')
         sc.setdefault('classes',[]).append((name, len(params) if hasctor else (dict(sc.get('classes',[])).get(parent,0) if derived else 0)))
@@ -606,6 +621,9 @@ def pr(P, n, ind=0):
         if d['hasctor']: out+=f"{I}  constructor({', '.join(d['params'])}) {pr(P,d['body'],ind+1)}\n"
         for k,fn in zip(d['mkeys'],d['mfuncs']): out+=meth(k,fn,False)
         for k,fn in zip(d['smkeys'],d['smfuncs']): out+=meth(k,fn,True)
+        for k,gf,sf in zip(d.get('akeys',[]),d.get('agets',[]),d.get('asets',[])):
+            if gf: out+=f"{I}  get {KS(k)}() {pr(P,P['nodes'][gf-1]['body'],ind+1)}\n"
+            if sf: out+=f"{I}  set {KS(k)}({P['nodes'][sf-1]['params'][0]}) {pr(P,P['nodes'][sf-1]['body'],ind+1)}\n"
         return out+f"{I}}}\n"
     if t=='ddecl':
         parts=[]
